@@ -7,4 +7,4 @@ Extraction Language OCaml.
 Extraction "c05_model.ml"
   legacy_v1 legacy_v2 proto_v1 proto_v2 proto_read msr_read
   dec_set dec_prefix enc_set raw_records records records_ctl ts_ms
-  s0 step read_ref pb_read_from.
+  s0 step read_ref pb_read_from pb_write_at.
